@@ -440,8 +440,10 @@ def structure_cases():
     cels = [("none", [])] + [("img", [img_cel])]
     for w in range(3):
         for h in range(3):
-            for fill in (0, 1, 2):
+            for fill in (0, 1, 2, 0xFFFFFFFF, 0x1FFFFFFF):
                 if w * h == 0 and fill:
+                    continue
+                if fill > 2 and w * h > 1:
                     continue
                 cels.append((f"tm{w}x{h}f{fill}", [tm_cel(w, h, [fill] * (w * h))]))
     tilesets = [("ts-", []), ("ts0n1", [tileset(0, 1)]), ("ts0n2", [tileset(0, 2)]), ("ts1n2", [tileset(1, 2)]),
@@ -475,6 +477,19 @@ def structure_cases():
                 fr[a].append(lnk(nl - 1, 0))
                 fr[b].append(lnk(nl - 1, a))
                 out.append((f"linkchain/{nl}/{a}-{b}", mk_header(nf, 1, 1) + b"".join(mk_frame(f) for f in fr)))
+    # every assignment of {image cel, link to frame g} to the frames of one layer, for 2..4 frames:
+    # self links, cycles, links to later frames, links to links
+    import itertools
+    for nf in (2, 3, 4):
+        for combo in itertools.product(range(nf + 1), repeat=nf):
+            if all(c == nf for c in combo):
+                continue
+            fr = []
+            for f, c in enumerate(combo):
+                ch = [mk_layer()] if f == 0 else []
+                ch.append(raw1(0) if c == nf else lnk(0, c))
+                fr.append(mk_frame(ch))
+            out.append((f"linkcycle/{nf}/{''.join(map(str, combo))}", mk_header(nf, 1, 1) + b"".join(fr)))
     # tilesets that only link to an external file (refused), with the external-files entry present or
     # absent, used by a layer or not; two tileset chunks with the same id in both orders
     def ts_chunk(tid, flags, ntiles=1, extid=7):
@@ -1578,6 +1593,14 @@ def hostile_memory_inputs(ctx, scale):
         out.append((f"bomb-large-decl/{dw}x{dh}", mk_header(1, 4, 4) + mk_frame([mk_layer(), celb])))
         tsb = mk_chunk(0x2023, struct.pack("<IIIHHh", 0, 2, dh, dw, 1, 1) + bytes(14) + struct.pack("<H", 0) + struct.pack("<I", len(zmid)) + zmid)
         out.append((f"bomb-large-decl-tileset/{dw}x{dh}", mk_header(1, 4, 4) + mk_frame([tsb, mk_layer()])))
+    # tilesets without embedded pixels whose declared size is large (nothing may be reserved for them)
+    for flags in (1, 5, 0, 4):
+        for cnt, tw, th in ((1 << 20, 8, 8), (0xFFFFFFFF, 1, 1), (65536, 256, 256), (1 << 24, 2, 2)):
+            body = struct.pack("<IIIHHh", 0, flags, cnt, tw, th, 1) + bytes(14) + struct.pack("<H", 0)
+            if flags & 1:
+                body += struct.pack("<II", 7, 0)
+            extc = mk_chunk(0x2008, struct.pack("<I", 1) + bytes(8) + struct.pack("<I", 7) + bytes(8) + struct.pack("<H", 1) + b"f")
+            out.append((f"ext-tileset-declared/{flags}/{cnt:x}x{tw}x{th}", mk_header(1, 4, 4) + mk_frame([extc, mk_chunk(0x2023, body), mk_layer()])))
     # one large compressible cel and many frames linking to it (links must stay links)
     zb = zlib.compress(bytes([7, 7, 7, 255]) * (2048 * 2048), 9)
     f0 = mk_frame([mk_layer(), mk_chunk(0x2005, struct.pack("<HhhBH", 0, 0, 0, 255, 2) + bytes(7) + struct.pack("<HH", 2048, 2048) + zb)])
@@ -2127,11 +2150,30 @@ def c16_run(ctx, scale):
         cb, b = good[k % len(good)]
         hist[f"histbad/{k}"] = (ca, a, cb, b)
     hreqs = [f"HISTORY {hid} {a.hex()} {b.hex()}" + (" keep" if hid in keep_ids else "") for hid, (ca, a, cb, b) in hist.items()]
+    # "loading the same bytes twice gives equal observations" also when the reader delivers them differently
+    sreqs, smeta = [], {}
+    for cid, b in [f for f in files if len(f[1]) < 4000][:30]:
+        for tag, ev in (("bytewise", ",".join(["d1"] * len(b))), ("sevens", ",".join(["d7"] * (len(b) // 7 + 2))), ("at100", f"d100,d{len(b)}")):
+            rid = f"{cid}|{tag}"
+            sreqs.append(f"SCHED {rid} {b.hex()} {ev}")
+            smeta[rid] = (cid, b)
     outs = {}
     houts = {}
     for profile in ("release", "relchk"):
         outs[profile], _ = vlib.run_impl(reqs, profile)
         houts[profile], _ = vlib.run_impl(hreqs, profile)
+    for profile in ("release", "relchk"):
+        so, _ = vlib.run_impl(sreqs, profile)
+        for rid, (cid, b) in smeta.items():
+            res.evaluations += 1
+            res.compared += 1
+            ref = [l for l in (outs[profile].get(cid) or []) if not l.startswith("mapperx") and not l.startswith("differs")]
+            got = so.get(rid) or ["missing"]
+            if got != ref:
+                d = vlib.first_diff(ref, got)
+                res.oracle_failures.append({"id": rid, "build_profile": profile, "input_hex": b.hex(),
+                                            "call": "SCHED " + rid.split("|")[1],
+                                            "what": f"the same bytes delivered in pieces ({rid.split('|')[1]}) are observed differently: {str(d)[:300]}"})
     model, _ = vlib.run_model(vlib.load_lines(files + [(hid, b) for hid, (ca, a, cb, b) in hist.items()]))
     for hid, (ca, a, cb, b) in hist.items():
         res.evaluations += 1
